@@ -498,16 +498,23 @@ where
                     out_pretty,
                     fmt_duration_as_secs(&duration)
                 );
-                let stdout = entry.get_stdout();
-                let stderr = entry.get_stderr();
-                let output = process::Output {
-                    status: exit_status(0),
-                    stdout,
-                    stderr,
-                };
                 let hit = CompileResult::CacheHit(duration);
-                match entry.extract_objects(outputs.clone(), &pool).await {
-                    Ok(()) => Ok(CacheLookupResult::Success(hit, output)),
+                let restored = match (entry.get_stdout(), entry.get_stderr()) {
+                    (Ok(stdout), Ok(stderr)) => entry
+                        .extract_objects(outputs.clone(), &pool)
+                        .await
+                        .map(|()| (stdout, stderr)),
+                    (Err(e), _) | (_, Err(e)) => Err(e),
+                };
+                match restored {
+                    Ok((stdout, stderr)) => {
+                        let output = process::Output {
+                            status: exit_status(0),
+                            stdout,
+                            stderr,
+                        };
+                        Ok(CacheLookupResult::Success(hit, output))
+                    }
                     Err(e) => {
                         if e.downcast_ref::<DecompressionFailure>().is_some() {
                             debug!("[{}]: Failed to decompress object", out_pretty);
